@@ -100,7 +100,11 @@ func (c *cache) flushScheduler() {
 					case <-c.closeCh:
 						return
 					}
-					b = sortedAddrs[i:i]
+					if handledAddr {
+						b = sortedAddrs[i+1 : i+1]
+					} else {
+						b = sortedAddrs[i:i]
+					}
 					bs = 0
 				}
 				if handledAddr {
